@@ -21,6 +21,8 @@ CONSTANTS
   Deviations = {"F12", "F14"}
   MaxApps = 0
   MaxSucc = 6
+  CapX = {}
+  CapY = {}
   MaxLen = 4
 INVARIANT Theorems
 CHECK_DEADLOCK FALSE
